@@ -116,6 +116,14 @@ class Context:
         )
         return ok
 
+    def include(self, prop: str, rule: str, only=None) -> None:
+        """Run the rules of a neighbouring property (or the subset `only` of its rule
+        ids) as obligations of this one: the mechanisms are shared, so a change that
+        breaks the neighbour's mechanism breaks this property too."""
+        import importlib
+        mod = importlib.import_module(f"lsa.rules.{prop.lower()}")
+        mod.check(_Included(self, rule, set(only) if only else None, prop))
+
     def require_min(self, what: str, found: int, minimum: int) -> None:
         """Instance-count floor: below it the rule would pass vacuously."""
         self.minima.append((what, found, minimum))
@@ -125,6 +133,43 @@ class Context:
             self.min_failures.append(
                 f"rule instance count for '{what}' is {found}, below the confirmed "
                 f"minimum {minimum} (the rule would pass vacuously)")
+
+
+class _Included:
+    """View of a Context used while a neighbouring property's rules run on behalf of this
+    one: their obligations are recorded under this property's rule id (the original rule
+    id stays in the text), optionally restricted to some of the neighbour's rules."""
+
+    _OWN = ("_ctx", "_rule", "_only", "_src")
+
+    def __init__(self, ctx, rule, only, src):
+        object.__setattr__(self, "_ctx", ctx)
+        object.__setattr__(self, "_rule", rule)
+        object.__setattr__(self, "_only", only)
+        object.__setattr__(self, "_src", src)
+
+    def __getattr__(self, name):
+        return getattr(self._ctx, name)
+
+    def __setattr__(self, name, value):
+        setattr(self._ctx, name, value)
+
+    def rule(self, rid, text):
+        return None
+
+    def undecided(self, *clauses):
+        return None
+
+    def include(self, *a, **k):
+        return None
+
+    def require_min(self, what, found, minimum):
+        return self._ctx.require_min(f"[{self._src}] {what}", found, minimum)
+
+    def ob(self, rule, construct, what, ok, *args, **kw):
+        if self._only is not None and rule not in self._only:
+            return bool(ok)
+        return self._ctx.ob(self._rule, construct, f"[{rule}] {what}", ok, *args, **kw)
 
 
 # ------------------------------------------------------------------ known findings
